@@ -1,0 +1,29 @@
+//go:build verif
+
+package tables
+
+// Verification hooks for property C09 (add-only, compiled only with the build tag `verif`).
+
+// VerifNameRecord is one record of the 'name' table with the value Name.decodeRecord returns for it.
+type VerifNameRecord struct {
+	Platform, Encoding, Language, Name, Length, Offset uint16
+	Value                                              string
+}
+
+// VerifNameRecords runs ParseName, then decodeRecord on every record (what Name() does for
+// the record it selects).
+func VerifNameRecords(src []byte) ([]VerifNameRecord, error) {
+	names, _, err := ParseName(src)
+	if err != nil {
+		return nil, err
+	}
+	out := make([]VerifNameRecord, len(names.nameRecords))
+	for i, r := range names.nameRecords {
+		out[i] = VerifNameRecord{
+			Platform: uint16(r.platformID), Encoding: uint16(r.encodingID), Language: uint16(r.languageID),
+			Name: uint16(r.nameID), Length: r.length, Offset: r.stringOffset,
+			Value: names.decodeRecord(r),
+		}
+	}
+	return out, nil
+}
